@@ -211,7 +211,22 @@ impl Property for C12 {
         }
         j.judgements += 1;
         let end = tr.stats.sim_ms.min(tv.stats.sim_ms).saturating_sub(2);
-        let key_tx = |x: &Tx| (x.t, x.if_index, x.v4, x.bytes.clone());
+        // canonical content: the order of questions and of records inside a section follows hash-map iteration
+        // order, which the number of earlier loop iterations perturbs
+        let canon = |x: &Tx| -> Vec<u8> {
+            match &x.msg {
+                Some(m) => {
+                    let mut c = m.clone();
+                    c.questions.sort_by_key(|q| format!("{q:?}"));
+                    c.answers.sort_by_key(|r| format!("{r:?}"));
+                    c.authorities.sort_by_key(|r| format!("{r:?}"));
+                    c.additionals.sort_by_key(|r| format!("{r:?}"));
+                    wire::encode(&c, false)
+                }
+                None => x.bytes.clone(),
+            }
+        };
+        let key_tx = |x: &Tx| (x.t, x.if_index, x.v4, canon(x));
         // (the order of packets sent within one millisecond depends on hash-map iteration order, which the
         // number of earlier loop iterations perturbs: compare as multisets per instant)
         let mut a: Vec<_> = tr.tx.iter().filter(|x| x.t <= end).map(key_tx).collect();
